@@ -21,6 +21,7 @@ import (
 const (
 	sigMultiMatrixLevel = "C18/dft/level-with-several-matrices-consumes-a-prime-per-matrix"
 	sigCISparse         = "C18/func/conjugate-invariant-input-sparser-than-LogSlots"
+	sigCIIterations     = "C18/func/conjugate-invariant-with-iterations"
 	sigCopyN1           = "C18/copy/ShallowCopy-drops-xPow2InvN1"
 	sigPackLevel        = "C18/func/packing-sparse-ciphertexts-above-level-0"
 )
@@ -219,6 +220,9 @@ func runFunctional(c *engine.Chooser, k cfg) {
 		known = sigMultiMatrixLevel
 	case realOnly && ctLog < s.btp.LogMaxSlots():
 		known = sigCISparse
+	case realOnly && k.Iter != 0:
+		// the iteration loop subtracts the input from an output that still carries the 1/2 of the ring-type switch
+		known = sigCIIterations
 	case k.Copy && (k.Residual == 1 || k.Residual == 3) && k.CtGap > 0 && k.Batch > 0:
 		// ShallowCopy + ring-degree switch + several sparse ciphertexts packed in the small ring
 		known = sigCopyN1
